@@ -274,7 +274,7 @@ public:
                               "stub: transport, ScriptedServer as an independent RFC 5802/2831/4616/XEP-0484 implementation on OpenSSL (honest or misbehaving message sequences), seeded nonces");
     }
 
-    static constexpr const char *kScramQuirks[] = { "nonce_mismatch", "nonce_truncated", "iter0", "iter_neg", "iter_nan", "no_r", "no_s", "no_i", "empty_salt", "wrong_v", "wrong_v_prefix_ok", "error_e", "success_no_v", "success_server_first_again", "extra_challenge" };
+    static constexpr const char *kScramQuirks[] = { "nonce_mismatch", "nonce_truncated", "iter0", "iter_neg", "iter_nan", "iter_huge", "no_r", "no_s", "no_i", "empty_salt", "wrong_v", "wrong_v_prefix_ok", "error_e", "success_no_v", "success_server_first_again", "extra_challenge" };
     static constexpr const char *kDigestQuirks[] = { "rspauth_wrong", "rspauth_missing", "no_nonce", "qop_noauth" };
 
     Plan generate(quint64 seed, const QString &) override
